@@ -5,8 +5,8 @@ from engine import Case
 from matlib import *
 
 PID = "C03"
-IMPORTS = "From OV Require Import Model.Vector Model.Matrix Model.MatOps."
-MODEL_VO = ["Model/MatOps.vo"]
+IMPORTS = "From OV Require Import Model.Vector Model.Matrix Model.MatOps Model.MatNorms."
+MODEL_VO = ["Model/MatOps.vo", "Model/MatNorms.vo"]
 EXHAUSTIVE = False
 RULE = ("mat.hist cases: (a) products r x k * k x c for every shape 0<=r,k,c<=B (B=5 quick, 8 thorough; exhaustive in shape, "
         "sampled rational values), (b) every operation on every shape <=4x4 with every index argument 0..dim+1 "
@@ -51,6 +51,62 @@ def rvec(rng, elt, n):
 def mk(elt, m0, ops, family, nontrivial=True):
     return Case(elt, hist_line(elt, m0, ops), hist_term(elt, m0, ops),
                 meta={"m0": m0, "ops": ops}, family=family, nontrivial=nontrivial)
+
+def norm_val(rng):
+    k = rng.below(10)
+    if k == 0: return 0.0
+    if k == 1: return -0.0
+    if k < 5: return float(rng.range(-9, 9))
+    if k < 7: return rng.range(-64, 64) / 8.0
+    return (rng.unit() - 0.5) * 10 ** rng.range(-3, 3)
+
+def mk_norms(m0, family="norms"):
+    r, c, _ = m0
+    return Case('f64', "mat.norms " + tok_mat('f64', m0), "@mat_norms SAF flat_f %s" % coq_mat('f64', m0),
+                meta={"kind": "norms", "m0": m0}, family=family, nontrivial=(r * c > 0), tol=1e-13)
+
+def mk_norm_p(m0, p, family="norm_p"):
+    r, c, _ = m0
+    return Case('f64', "mat.norm_p %s %s" % (tok_mat('f64', m0), tok_scalar('f64', p)), None,
+                meta={"kind": "norm_p", "m0": m0, "p": p}, family=family, nontrivial=(r * c > 0))
+
+def norms_reference(m0):
+    """textbook definitions, exact rational arithmetic on the (dyadic) entries"""
+    r, c, vals = m0
+    a = [[abs(Fraction(vals[i * c + j])) for j in range(c)] for i in range(r)]
+    n1 = max([sum((a[i][j] for i in range(r)), Fraction(0)) for j in range(c)], default=Fraction(0))
+    ni = max([sum((a[i][j] for j in range(c)), Fraction(0)) for i in range(r)], default=Fraction(0))
+    nm = max([a[i][j] for i in range(r) for j in range(c)], default=Fraction(0))
+    s2 = sum((a[i][j] ** 2 for i in range(r) for j in range(c)), Fraction(0))
+    return n1, ni, nm, s2
+
+def close(x, ref, rel=1e-12):
+    return abs(x - ref) <= rel * max(abs(ref), 1e-300) or x == ref
+
+def norms_oracle(case, items):
+    import mpmath
+    m0 = case.meta["m0"]
+    if any(it[0] == 'P' for it in items):
+        return "a norm panicked on a well-formed matrix: %r" % (items,)
+    got = [bits_f64(it[1]) for it in items if it[0] == 'f']
+    if case.meta["kind"] == "norms":
+        if len(got) != 4: return "expected 4 norms, got %r" % (items,)
+        n1, ni, nm, s2 = norms_reference(m0)
+        mpmath.mp.prec = 200
+        ref = [float(n1), float(ni), float(nm), float(mpmath.sqrt(mpmath.mpf(s2.numerator) / s2.denominator))]
+        for name, x, y in zip(("norm_1 (max column sum)", "norm_inf (max row sum)", "norm_max", "norm_frob"), got, ref):
+            if not close(x, y):
+                return "%s = %r but the definition gives %r on %r" % (name, x, y, m0)
+        return None
+    p = case.meta["p"]
+    r, c, vals = m0
+    mpmath.mp.prec = 200
+    s = mpmath.mpf(0)
+    for v in vals: s += mpmath.power(abs(mpmath.mpf(v)), mpmath.mpf(p))
+    ref = float(mpmath.power(s, 1 / mpmath.mpf(p))) if s != 0 else 0.0
+    if len(got) != 1 or not close(got[0], ref, 1e-10):
+        return "norm_p(%r) = %r but (sum |a_ij|^p)^(1/p) = %r on %r" % (p, got, ref, m0)
+    return None
 
 def rand_op(rng, elt, r, c, allow_bad=True):
     """one operation, mostly valid for an r x c matrix, sometimes deliberately out of range / mismatched"""
@@ -150,6 +206,20 @@ def generate(rng, tier):
             for nr in range(0, S + 2):
                 for nc in range(0, S + 2):
                     cases.append(mk('rat', m0, [("resize", nr, nc)], "single-op"))
+    # (n) norms: every shape 0..5 x 0..5 (0..8 thorough), f64 entries; norm_p for a menu of exponents
+    g = rng.fork("norms")
+    for r in range(B + 1):
+        for c in range(B + 1):
+            for rep in range(2 if tier == "quick" else 3):
+                m0 = (r, c, [norm_val(g) for _ in range(r * c)])
+                cases.append(mk_norms(m0))
+                if rep == 0 and r * c > 0:
+                    cases.append(mk_norm_p(m0, [1.0, 1.5, 2.0, 3.0, 4.0][g.below(5)]))
+    # a column-dominant and a row-dominant pattern on every non-square shape (norm_1 and norm_inf must differ)
+    for r in range(1, 5):
+        for c in range(1, 5):
+            if r != c:
+                cases.append(mk_norms((r, c, [float(1 + i + 10 * j) * (-1) ** (i + j) for i in range(r) for j in range(c)]), "norms-pattern"))
     # (c) random histories
     g = rng.fork("hist")
     nh = 400 if tier == "thorough" else 80
@@ -169,6 +239,10 @@ def generate(rng, tier):
     return cases
 
 def case_from_json(j):
+    if j.get("meta", {}).get("kind") == "norms":
+        m0 = j["meta"]["m0"]; return mk_norms((m0[0], m0[1], [float(x) for x in m0[2]]), "corpus")
+    if j.get("meta", {}).get("kind") == "norm_p":
+        m0 = j["meta"]["m0"]; return mk_norm_p((m0[0], m0[1], [float(x) for x in m0[2]]), float(j["meta"]["p"]), "corpus")
     def conv(x):
         if isinstance(x, str) and "/" in x: return Fraction(x)
         if isinstance(x, list): return [conv(y) for y in x]
@@ -192,6 +266,8 @@ def case_from_json(j):
     return mk(elt, m0, ops, "corpus")
 
 def oracle(case, items):
+    if case.meta.get("kind") in ("norms", "norm_p"):
+        return norms_oracle(case, items)
     if case.elt != 'rat':
         return None
     exp = ref_hist('rat', case.meta["m0"], case.meta["ops"])
